@@ -1,6 +1,7 @@
 package main
 
 import (
+	beaconState "github.com/oasisprotocol/oasis-core/go/consensus/cometbft/apps/beacon/state"
 	"github.com/oasisprotocol/oasis-core/go/common/version"
 	consensusState "github.com/oasisprotocol/oasis-core/go/consensus/cometbft/apps/consensus/state"
 	"encoding/json"
@@ -101,6 +102,55 @@ func registryInvariants(n *chain.Node) string {
 		sort.Strings(want)
 		if strings.Join(got, ",") != strings.Join(want, ",") {
 			return fmt.Sprintf("nodes-by-entity index of %s lists [%s], the node records imply [%s]", e.ID, strings.Join(got, ","), strings.Join(want, ","))
+		}
+	}
+	// admission policies (runtime descriptors of the explored universes never change their policy): every
+	// live node serving a runtime with an entity whitelist belongs to a whitelisted entity, holds only roles
+	// the whitelist names, and no entity has more live nodes in a role than the whitelist allows
+	if ep, _, err := beaconState.NewImmutableState(t).GetEpoch(chain.Ctx); err == nil {
+		for _, rt := range runtimes {
+			type cnt map[node.RolesMask]int
+			per := map[signature.PublicKey]cnt{}
+			for _, nd := range nodes {
+				if nd.IsExpired(ep) || !nd.HasRuntime(rt.ID) {
+					continue
+				}
+				if per[nd.EntityID] == nil {
+					per[nd.EntityID] = cnt{}
+				}
+				for _, role := range node.Roles() {
+					if nd.HasRoles(role) {
+						per[nd.EntityID][role]++
+					}
+				}
+			}
+			for ent, c := range per {
+				if wl := rt.AdmissionPolicy.EntityWhitelist; wl != nil {
+					cfg, ok := wl.Entities[ent]
+					if !ok {
+						return fmt.Sprintf("entity %s has live nodes for runtime %s although it is not on the runtime's entity whitelist", ent, rt.ID)
+					}
+					if len(cfg.MaxNodes) > 0 {
+						for role, n := range c {
+							if n > int(cfg.MaxNodes[role]) {
+								return fmt.Sprintf("entity %s has %d live %s nodes for runtime %s, its whitelist entry allows %d", ent, n, role, rt.ID, cfg.MaxNodes[role])
+							}
+						}
+					}
+				}
+				for role, pr := range rt.AdmissionPolicy.PerRole {
+					if pr.EntityWhitelist == nil || c[role] == 0 {
+						continue
+					}
+					cfg, ok := pr.EntityWhitelist.Entities[ent]
+					if !ok {
+						return fmt.Sprintf("entity %s has a live %s node for runtime %s although it is not on the per-role whitelist", ent, role, rt.ID)
+					}
+					if cfg.MaxNodes > 0 && c[role] > int(cfg.MaxNodes) {
+						return fmt.Sprintf("entity %s has %d live %s nodes for runtime %s, the per-role whitelist allows %d", ent, c[role], role, rt.ID, cfg.MaxNodes)
+					}
+				}
+			}
 		}
 	}
 	// runtime-by-entity index (kept exact from consensus feature version 26.1 on; before that an
@@ -219,6 +269,7 @@ func c17Universes(r *ev.Run) []*c17Universe {
 		{EpochInterval: 1, NodeExpirations: []uint64{12, 3, 12}},
 		{EpochInterval: 1, NodeExpirations: []uint64{12, 3, 12}, Runtime: true, RtFunded: true},
 		{EpochInterval: 1, NodeExpirations: []uint64{12, 3, 12}, Runtime: true, RtFunded: true, Feature261: true},
+		{EpochInterval: 1, NodeExpirations: []uint64{12, 3, 12}, Runtime: true, RtFunded: true, RtWhitelist: true},
 	} {
 		w, err := newWorld(o)
 		if err != nil {
@@ -243,6 +294,17 @@ func c17Universes(r *ev.Run) []*c17Universe {
 				switch t.Name {
 				case "node0-renew(exp6)", "node1 expired descriptor(exp1)", "entity0-deregister (has node)", "entity1-update nodes=[1,3]", "node3-new for e1", "node2 roles=validator->observer":
 					u.alpha = append(u.alpha, letter{Name: t.Name, Txs: []txT{t}})
+				}
+			}
+			if o.RtWhitelist {
+				// admission: a second compute node, observers of entities on / not on the per-role whitelist,
+				// a live node adding a role
+				for _, t := range w.runtimeTxs() {
+					switch t.Name {
+					case "node3-new validator+runtime for e1", "node1-renew adding the observer role", "node0-renew adding the observer role",
+						"node3-new compute for e1", "node3-new observer+runtime for e1", "node3-new validator+compute for e1":
+						u.alpha = append(u.alpha, letter{Name: t.Name, Txs: []txT{t}})
+					}
 				}
 			}
 		}
